@@ -17,16 +17,17 @@ Model of retention / deletion (C14), mirroring pkg/retention/retention.go as it 
     cutting it after any prefix models a crash at any point of the function.
   * `ReadLocalSegmeta(false)` (segmetarw.go l.156): segmeta.json does not carry `AllPQIDs`
     (`json:"-"`), so the metas every pass hands to `DeleteSegmentData` have no pqids.
-  * `doVolumeBasedDeletion` (l.212-298): `allowedVolumeGB*1000*1000*1000` (uint64), warning-counter
+  * `doVolumeBasedDeletion` (l.212-300): `allowedVolumeGB*1000*1000*1000` (uint64), warning-counter
     gate, candidates = metrics metas ++ segmeta entries (all orgs), `sort.Slice` by
-    `LatestEpochMS` resp. `uint64(LatestEpochSec * 1000)` — a uint32 multiplication that wraps —,
-    then the loop `if size < volumeToDelete { mark; volumeToDelete -= size } else { break }` whose
-    `break` only leaves the `switch`, i.e. the loop continues with the next entry.
+    `LatestEpochMS` resp. `uint64(LatestEpochSec) * 1000`, then the loop
+    `if size < volumeToDelete { mark; volumeToDelete -= size } else { break deleteLoop }`.
+    (Before the fix the key was the wrapping uint32 product `uint64(LatestEpochSec * 1000)` and the
+    `break` left only the `switch`; that behaviour is kept as `volKeyOld` / `volLoopOld` / `volPassOld`.)
     `sort.Slice` is not stable in general; for ≤ 12 elements Go's pdqsort is an insertion sort and hence
     stable, and without ties every sort gives the same result.  The model uses the stable insertion
     sort; the correspondence generator produces ties only in inputs of ≤ 12 entries, and never between
     two metrics segments (metricmeta.json is read into a Go map, so their input order is random).
-  * `doInodeBasedDeletion` (l.429-544), selection loop only (not tied: it depends on statfs).
+  * `doInodeBasedDeletion` (l.431-546), selection loop only (not tied: it depends on statfs).
 
 Keys are abstract naturals (one per SegmentKey / MSegmentDir, assumed distinct as in the Go maps).
 Core Lean only.
@@ -158,42 +159,45 @@ def orphans (s : Store) : List Nat := s.files.filter (fun k => decide (k ∉ s.s
 
 def maxWarnings : Nat := 5
 
-/-- sort key of `doVolumeBasedDeletion` / `doInodeBasedDeletion`: `uint64(LatestEpochSec * 1000)` is a uint32 product -/
-def volKey (m : Meta) : Nat :=
+/-- sort key of `doVolumeBasedDeletion` / `doInodeBasedDeletion`: `LatestEpochMS` resp.
+`uint64(LatestEpochSec) * 1000` (the same expression as in the time-based pass) -/
+def volKey (m : Meta) : Nat := timeMs m
+
+/-- the sort key before the fix: `uint64(LatestEpochSec * 1000)`, a uint32 product that wraps -/
+def volKeyOld (m : Meta) : Nat :=
   match m.kind with
   | .log => m.latest
   | .metrics => wrap32 (m.latest * 1000)
 
-/-- what the key is meant to be: the newest event in ms -/
+/-- the newest event in ms as a mathematical number -/
 def trueTimeMs (m : Meta) : Nat :=
   match m.kind with
   | .log => m.latest
   | .metrics => m.latest * 1000
 
 /-- insert before the first element whose key is not smaller -/
-def insertBy (x : Meta) : List Meta → List Meta
+def insertBy (key : Meta → Nat) (x : Meta) : List Meta → List Meta
   | [] => [x]
-  | y :: r => if volKey x ≤ volKey y then x :: y :: r else y :: insertBy x r
+  | y :: r => if key x ≤ key y then x :: y :: r else y :: insertBy key x r
 
-/-- the stable sort by `volKey` (insertion sort; equal keys keep their input order) -/
-def volSort : List Meta → List Meta
+/-- the stable sort by `key` (insertion sort; equal keys keep their input order) -/
+def sortBy (key : Meta → Nat) : List Meta → List Meta
   | [] => []
-  | x :: r => insertBy x (volSort r)
+  | x :: r => insertBy key x (sortBy key r)
 
-/-- the marking loop; the `break` in the `else` branch leaves only the `switch`, so the loop goes on -/
+def volSort (l : List Meta) : List Meta := sortBy volKey l
+def volSortOld (l : List Meta) : List Meta := sortBy volKeyOld l
+
+/-- the marking loop (`deleteLoop:`): mark while the segment is smaller than what is still to be deleted,
+`break deleteLoop` at the first segment that is not -/
 def volLoop : Nat → List Meta → List Meta
   | _, [] => []
-  | rem, m :: r => if m.size < rem then m :: volLoop (rem - m.size) r else volLoop rem r
+  | rem, m :: r => if m.size < rem then m :: volLoop (rem - m.size) r else []
 
-/-- the loop a reader of the source expects: stop at the first segment that does not fit -/
-def volLoopStop : Nat → List Meta → List Meta
+/-- the loop before the fix: its `break` left only the `switch`, so it went on with the next entry -/
+def volLoopOld : Nat → List Meta → List Meta
   | _, [] => []
-  | rem, m :: r => if m.size < rem then m :: volLoopStop (rem - m.size) r else []
-
-/-- inputs on which the two loops cannot be told apart: once a segment does not fit, no later one fits -/
-def noLateFit : Nat → List Meta → Bool
-  | _, [] => true
-  | rem, m :: r => if m.size < rem then noLateFit (rem - m.size) r else r.all (fun x => !decide (x.size < rem))
+  | rem, m :: r => if m.size < rem then m :: volLoopOld (rem - m.size) r else volLoopOld rem r
 
 def totalSize (l : List Meta) : Nat := (l.map (·.size)).sum
 
@@ -214,6 +218,11 @@ def volSystem (metrics logs : List Meta) : Nat :=
 def volPass (limitGB counter : Nat) (metrics logs : List Meta) : List Meta :=
   let ex := volExcess limitGB counter (volSystem metrics logs)
   if ex = 0 then [] else volLoop ex (volSort (metrics ++ logs))
+
+/-- the volume pass before the two fixes (kept for the record: Props.C14 shows what was wrong with it) -/
+def volPassOld (limitGB counter : Nat) (metrics logs : List Meta) : List Meta :=
+  let ex := volExcess limitGB counter (volSystem metrics logs)
+  if ex = 0 then [] else volLoopOld ex (volSortOld (metrics ++ logs))
 
 /-! ### the inode-based pass (selection loop only) -/
 
